@@ -60,6 +60,8 @@ def to_actions(case, obs):
         kind, tok = ev[2], ev[3]
         if kind == 'submit':
             r = byval[int(re.search(r"\['r(-?\d+)'", ev[6]).group(1))]
+            if ev[4] != sum(1 for k in owner if k[0] == tok):
+                return None                       # task ids are allocated consecutively per executor
             inst[tok] = int(ev[5].rsplit('-', 1)[1])
             owner[(tok, ev[4])] = r
             tasks.setdefault(tok, []).append(ev[4])
@@ -131,6 +133,9 @@ class C16(core.Prop):
             # a slow request in front of fast ones on a single worker, and a failing one in between
             {'apps': [[0, 1]], 'mult': {'1': 7}, 'workers': 1, 'list_delay': 0.0,
              'requests': [mk(0, 1, delay=40), mk(0, 2, missing=True), mk(0, 3), mk(9, 4), mk(0, 5, badenc=True), mk(0, 6, arrival=10)]},
+            # more requests in flight on one executor than any small id space: a straggler and 69 fast ones
+            {'apps': [[0, 1]], 'mult': {'1': 3}, 'workers': 2, 'list_delay': 0.0,
+             'requests': [mk(0, 1, delay=250)] + [mk(0, k) for k in range(2, 71)]},
         ]
 
     def cases(self, rng, tier):
